@@ -233,6 +233,8 @@ def run_frame(P, res, payload):
                 res.violations.append({'what': what, 'input': concrete(m)})
         res.cls('frame ops' + (' with removal' if any(isinstance(s, tuple) and s[0] == 'g' for s in script) else ''),
                 nontrivial=any(isinstance(s, tuple) for s in script))
+        if not bad:
+            res.xval_path('frame %s' % any(isinstance(s, tuple) and s[0] == 'g' for s in script), replay, lambda: concrete(ctx.model()))
         if len(res.samples) < 1:
             res.samples.append(concrete(ctx.model()))
         res.take_stats(ctx.stats); ctx.stats.__init__()
@@ -328,6 +330,8 @@ def run_response(P, res, payload):
         rec = {'kind': 'response', 'n': n, 'error': error, 'iter': kind, 'ops': ops}
         if bad:
             res.violations.append({'what': bad[0], 'input': rec})
+        else:
+            res.xval_path('response', replay, lambda: rec if (n or error) else None)      # (the empty response of an empty list has no wire form the native executor could decode)
         res.cls('response %s' % kind, nontrivial=n + error >= 2)
         if len(res.samples) < 1:
             res.samples.append(rec)
